@@ -36,6 +36,9 @@ def callback_clause(E, old, self, pkt_type, payload, retry, callback):
     cbref = m.callback.ref if isinstance(m.callback, SymFn) else z3.IntVal(0)
     plain = S.bool(cbref == (callback.ref if isinstance(callback, SymFn) else 0))
     rs = fn_object(E, z3.simplify(cbref))
+    if E.ip.verifying != 'connection.ConnectionBase._send_type':
+        # at a call site the RetrySender object is not materialised: only the plain-callback half of the clause is usable
+        return S.implies(S.Not(retry_is(retry, 'RETRY_ON_TIMEOUT')), plain)
     if rs is None or not isinstance(rs, Obj) or rs.cls is None or rs.cls.name != 'RetrySender':
         return S.implies(S.Not(retry_is(retry, 'RETRY_ON_TIMEOUT')), plain) & S.Not(retry_is(retry, 'RETRY_ON_TIMEOUT'))
     a = rs.attrs
@@ -64,7 +67,8 @@ class _:
         & S.enum_is(last_msg(E, self).type, pkt_type) & S.eq(last_msg(E, self).payload, payload) & S.enum_is(last_msg(E, self).retry, retry),
         'callback-or-retry-sender': lambda E, old, self, pkt_type, payload, retry, callback: callback_clause(E, old, self, pkt_type, payload, retry, callback),
         'sent-counted': lambda old, self: S.eq(self.stats.sent, old.self.stats.sent + 1),
-        'queued-object-is-new': lambda self, ghost, E: S.bool(z3.Select(self.outgoing_messages.arr, self.outgoing_messages.n - 1) >= ghost.alloc0),
+        'queued-object-is-new': lambda old, self, ghost, E: S.bool(z3.And(z3.Select(self.outgoing_messages.arr, self.outgoing_messages.n - 1) >= old.ghost.alloc,
+                                                                        z3.Select(self.outgoing_messages.arr, self.outgoing_messages.n - 1) < ghost.alloc)),
     }
     modifies = ['self.outgoing_messages', 'self.seq_message', 'self.stats.sent'] + ['field:PendingMessage.' + f for f in
                 ('seq', 'type', 'payload', 'callback', 'retry', 'assembled_time')]
